@@ -487,8 +487,8 @@ QByteArray QXmppStunMessage::reservationToken() const
 ///
 void QXmppStunMessage::setReservationToken(const QByteArray &reservationToken)
 {
-    m_reservationToken = reservationToken;
-    m_reservationToken.resize(8);
+    // exactly 8 bytes: truncate, or pad with zero bytes (resize() would leave them uninitialised)
+    m_reservationToken = reservationToken.leftJustified(8, 0, true);
     m_attributes << ReservationToken;
 }
 
